@@ -6,6 +6,7 @@ import (
 	"fmt"
 	"go/token"
 	"go/types"
+	"sort"
 	"strconv"
 	"strings"
 
@@ -547,6 +548,15 @@ func (c *FnCtx) execRange(st *State, in *ssa.Range) Val {
 			}
 			c.iterMap[in] = m.T
 			c.iterMapT[in] = mapTypeOf(in.X.Type())
+			if mt := mapTypeOf(in.X.Type()); c.mapKeyOK(mt) {
+				// ghost set of the keys this range has produced so far, and the keys present when it started
+				fam := c.rngFam(in)
+				c.heapSet(st, fam, arrSort(sBool), "((as const (Array Int Bool)) false)")
+				if c.rngStart == nil {
+					c.rngStart = map[ssa.Value]string{}
+				}
+				c.rngStart[in] = c.define("rng.start", arrSort(sBool), sel(c.heapGet(st, mapFamH(mt), mapSort(2, sBool)), m.T))
+			}
 		}
 	}
 	return it
@@ -563,7 +573,21 @@ func (c *FnCtx) execNext(st *State, in *ssa.Next) Val {
 		if !isInvalid(tt.At(1).Type()) {
 			key = c.freshVal(st, tt.At(1).Type(), "next.key")
 		}
-		_, val := c.mapNext(st, mt, m, out.E[0].(VBool).T, key)
+		kid, val := c.mapNext(st, mt, m, out.E[0].(VBool).T, key)
+		if rng, isRange := in.Iter.(*ssa.Range); isRange && c.rngStart[rng] != "" {
+			// a key is produced at most once; when the range ends, every key that was present when it
+			// started and is still present has been produced (Go spec, "For statements with range clause")
+			okT := out.E[0].(VBool).T
+			fam := c.rngFam(rng)
+			seen := c.heapGet(st, fam, arrSort(sBool))
+			c.assume(st, implies(okT, not(sel(seen, kid))))
+			c.heapSet(st, fam, arrSort(sBool), ite(okT, sto(seen, kid, "true"), seen))
+			q := c.fresh("rk")
+			now := sel(c.heapGet(st, mapFamH(mt), mapSort(2, sBool)), m)
+			c.assume(st, implies(not(okT), fmt.Sprintf("(forall ((%s Int)) (! (=> (and (select %s %s) (select %s %s)) (select %s %s)) :pattern ((select %s %s)) :pattern ((select %s %s))))",
+				q, c.rngStart[rng], q, now, q, seen, q, now, q, seen, q)))
+			c.assumptions["map range: every key is produced at most once, and at the end of the range every key present at its start and still present has been produced"] = true
+		}
 		if key == nil {
 			key = VInt{"0"}
 		}
@@ -681,6 +705,22 @@ func (e *Engine) ghostCall(env *Env, x ECall) (Val, bool) {
 				parts = append(parts, eq(strAt(sv, fmt.Sprint(i)), fmt.Sprint(lit.V[i])))
 			}
 			return VBool{and(parts...)}, true
+		}
+	case "rangeseen": // rangeseen(K, k): the K-th range-over-map of the function (source order) has produced key k
+		if n, ok := x.Args[0].(ENum); ok {
+			fam := fmt.Sprintf("G$rng.%s", n.V)
+			var kid string
+			switch kv := env.eval(x.Args[1]).(type) {
+			case VStr:
+				kid = c.keyID(kv)
+			case VInt:
+				kid = kv.T
+			case VPtr:
+				kid = c.keyID(kv)
+			default:
+				sfail("rangeseen: key of unsupported shape")
+			}
+			return VBool{sel(c.heapGet(env.st, fam, arrSort(sBool)), kid)}, true
 		}
 	case "hassuffix": // hassuffix(s, "literal"): the string ends with the literal
 		sv, ok := env.eval(x.Args[0]).(VStr)
@@ -899,4 +939,31 @@ func (e *Engine) predApp(env *Env, sf *SpecFunc, args []Val) Val {
 		e.recAxioms[sf.Name] = fmt.Sprintf("(assert (forall (%s) (! (= %s %s) :pattern (%s))))", strings.Join(decl, " "), lhs, body, lhs)
 	}
 	return VBool{app(sf.Name, flat...)}
+}
+
+// rngFam: the ghost family holding the keys produced so far by a range over a map
+// (numbered by the position of the range among the function's ranges over maps).
+func (c *FnCtx) rngFam(rng *ssa.Range) string {
+	k := 0
+	type posRange struct {
+		pos token.Pos
+		r   *ssa.Range
+	}
+	var all []posRange
+	for _, b := range c.fn.Blocks {
+		for _, in := range b.Instrs {
+			if r, ok := in.(*ssa.Range); ok {
+				if _, isMap := r.X.Type().Underlying().(*types.Map); isMap {
+					all = append(all, posRange{r.Pos(), r})
+				}
+			}
+		}
+	}
+	sort.Slice(all, func(i, j int) bool { return all[i].pos < all[j].pos })
+	for i, pr := range all {
+		if pr.r == rng {
+			k = i + 1
+		}
+	}
+	return fmt.Sprintf("G$rng.%d", k)
 }
